@@ -213,7 +213,7 @@ theorem attr_kind_exact (q : Bool) (c : Cls) (name : String) (v sv : PyVal) (p :
     | atom a =>
       cases a <;> simp only [construct, reduceCtorEq] at h
       rename_i d
-      cases d <;> simp only [construct, reduceCtorEq] at h
+      cases d <;> (try simp only [reduceCtorEq] at h)
       · split at h <;> simp at h
       · simp only [Except.ok.injEq, Prod.mk.injEq] at h; obtain ⟨_, rfl⟩ := h; exact ⟨rfl, rfl⟩
   case graph =>
@@ -231,5 +231,263 @@ theorem attr_kind_exact (q : Bool) (c : Cls) (name : String) (v sv : PyVal) (p :
       simp only [Option.map_eq_some_iff] at hp'
       obtain ⟨_, _, rfl⟩ := hp'
       rfl
+
+/-- `from_array` never fails on a representable array, so an item is a tensor iff it is an array. -/
+private theorem itemTensor_isSome (q : Bool) (a : Atom) :
+    (itemTensor q a).isSome = (match a with | .ndarray _ => true | _ => false) := by
+  cases a <;> simp [itemTensor, fromArray_total]
+
+private theorem validated_list_isOk {α : Type} (c : Cls) (st : PyVal) (mk : List α → AProto)
+    (r : Option (List α)) (hty : ∀ xs, (mk xs).type = kindOf c) :
+    (validated c st (r.map mk)).isOk = r.isSome := by
+  cases r <;> simp [validated, validateCatchAll, hty, Except.isOk, Except.toBool]
+
+/-- **Validation specification.** On the model's value universe a constructor returns iff the value
+    is of the class's kind … -/
+theorem validate_spec (q : Bool) (c : Cls) (name : String) (v : PyVal) (hd : inDomain c v = true) :
+    (construct q c name v).isOk = rightKind c v := by
+  cases c
+  case float32 =>
+    cases v with
+    | seq items => rfl
+    | atom a =>
+      cases a <;> simp [construct, validated, scalarProto, rightKind, validateCatchAll, kindOf, FLOAT, INT,
+        STRING, TENSOR, TYPE_PROTO, Except.isOk, Except.toBool]
+      case int n f => cases f <;> simp
+      case ndarray a => cases fromArray q a <;> simp
+  case int64 =>
+    cases v with
+    | seq items => rfl
+    | atom a =>
+      cases a <;> simp [construct, validated, scalarProto, rightKind, validateCatchAll, kindOf, FLOAT, INT,
+        STRING, TENSOR, TYPE_PROTO, Except.isOk, Except.toBool]
+      case int n f => cases inInt64 n <;> simp
+      case ndarray a => cases fromArray q a <;> simp
+  case string =>
+    cases v with
+    | seq items => rfl
+    | atom a =>
+      cases a <;> simp [construct, validated, scalarProto, rightKind, validateCatchAll, kindOf, FLOAT, INT,
+        STRING, TENSOR, TYPE_PROTO, Except.isOk, Except.toBool]
+      case int n f => cases inInt64 n <;> simp
+      case ndarray a => cases fromArray q a <;> simp
+  case type_ =>
+    cases v with
+    | seq items => rfl
+    | atom a =>
+      cases a <;> simp [construct, validated, scalarProto, rightKind, validateCatchAll, kindOf, FLOAT, INT,
+        STRING, TENSOR, TYPE_PROTO, Except.isOk, Except.toBool]
+      case int n f => cases inInt64 n <;> simp
+      case ndarray a => cases fromArray q a <;> simp
+  case tensor =>
+    cases v with
+    | seq items => rfl
+    | atom a =>
+      cases a <;> simp [construct, validated, scalarProto, rightKind, validateCatchAll, tensorGuard, kindOf,
+        TENSOR, Except.isOk, Except.toBool]
+      case ndarray a =>
+        have := fromArray_total q a ""
+        cases h : fromArray q a <;> simp [h] at this ⊢
+  case dtype =>
+    cases v with
+    | seq items => rfl
+    | atom a =>
+      cases a <;> simp [construct, rightKind, Except.isOk, Except.toBool]
+      case npdtype d => cases d <;> simp [construct, rightKind, dtypeCatches, Except.isOk, Except.toBool]
+  case graph =>
+    cases v with
+    | seq items => rfl
+    | atom a => cases a <;> simp [construct, rightKind, Except.isOk, Except.toBool]
+  all_goals
+    simp only [construct, rightKind]
+    cases ht : tupleOf v with
+    | none => rfl
+    | some items =>
+      simp only []
+      rw [validated_list_isOk _ _ _ _ (fun _ => rfl), mapM_isSome]
+      try (congr 1; funext a; exact itemTensor_isSome q a)
+
+/-- … and **a value of the wrong kind leaves the call with TypeError** — not with AttributeError or
+    ValueError, and it is never accepted. (Rests on `generated_guards`: with the guard in
+    `AttrTensor.__init__` or the `ValueError` handler in `dtype_to_tensor_type` missing, this theorem
+    does not check.) -/
+theorem wrong_kind_typeerror (q : Bool) (c : Cls) (name : String) (v : PyVal)
+    (hd : inDomain c v = true) (hk : rightKind c v = false) :
+    construct q c name v = .error .typeError := by
+  have hs := validate_spec q c name v hd
+  rw [hk] at hs
+  -- the constructor fails; every failure path of the model yields TypeError under the generated guards
+  have hv : ∀ (st : PyVal) (po : Option AProto), (validated c st po).isOk = false →
+      validated c st po = .error .typeError := by
+    intro st po h'
+    unfold validated at h' ⊢
+    cases po with
+    | none => simp [validateCatchAll]
+    | some p' =>
+      simp only at h' ⊢
+      split
+      · rfl
+      · rename_i hty; simp [hty, Except.isOk, Except.toBool] at h'
+  cases c
+  case float32 | int64 | string | type_ =>
+    cases v with
+    | seq items => exact hv (.seq items) none rfl
+    | atom a => exact hv _ _ hs
+  case tensor =>
+    cases v with
+    | seq items => simp [construct, tensorGuard]
+    | atom a =>
+      cases a <;> simp only [construct, tensorGuard, if_true] at hs ⊢
+      · exact hv _ _ hs
+      · exact hv _ _ rfl
+  case dtype =>
+    cases v with
+    | seq items => rfl
+    | atom a =>
+      cases a <;> (try rfl)
+      case npdtype d =>
+        cases d
+        · simp [construct, dtypeCatches]
+        · simp [rightKind] at hk
+  case graph =>
+    cases v with
+    | seq items => rfl
+    | atom a => cases a <;> first | rfl | simp [rightKind] at hk
+  all_goals
+    simp only [construct] at hs ⊢
+    cases ht : tupleOf v with
+    | none => rfl
+    | some items =>
+      simp only [ht] at hs
+      exact hv _ _ hs
+
+/-- Exact values: what each accepted value puts into the `AttributeProto`. -/
+theorem attr_int_exact (q : Bool) (name : String) (n : Int) (f : Option Nat) (sv : PyVal) (p : AProto)
+    (h : construct q .int64 name (.atom (.int n f)) = .ok (sv, p)) :
+    p.i = n ∧ sv = .atom (.int n f) := by
+  simp only [construct, scalarProto, validated] at h
+  split at h
+  · simp at h
+  · rename_i p' hp'
+    split at hp'
+    · simp only [Option.some.injEq] at hp'; subst hp'
+      split at h
+      · simp at h
+      · simp only [Except.ok.injEq, Prod.mk.injEq] at h; obtain ⟨rfl, rfl⟩ := h; exact ⟨rfl, rfl⟩
+    · simp at hp'
+
+/-- A list attribute keeps its items *in order*, all of them, frozen: the stored value is the tuple
+    of the items, and the proto holds exactly their conversions. -/
+theorem attr_ints_exact (q : Bool) (name : String) (items : List Atom) (sv : PyVal) (p : AProto)
+    (h : construct q .int64s name (.seq items) = .ok (sv, p)) :
+    sv = .seq items ∧ items.mapM itemInt = some p.ints ∧ p.ints.length = items.length := by
+  simp only [construct, tupleOf, validated] at h
+  cases hm : items.mapM itemInt with
+  | none => simp [hm, validateCatchAll] at h
+  | some xs =>
+    simp only [hm, Option.map_some] at h
+    split at h
+    · simp at h
+    · simp only [Except.ok.injEq, Prod.mk.injEq] at h
+      obtain ⟨rfl, rfl⟩ := h
+      exact ⟨rfl, rfl, mapM_length _ _ _ hm⟩
+
+theorem attr_floats_exact (q : Bool) (name : String) (items : List Atom) (sv : PyVal) (p : AProto)
+    (h : construct q .float32s name (.seq items) = .ok (sv, p)) :
+    sv = .seq items ∧ items.mapM itemFloat = some p.floats ∧ p.floats.length = items.length := by
+  simp only [construct, tupleOf, validated] at h
+  cases hm : items.mapM itemFloat with
+  | none => simp [hm, validateCatchAll] at h
+  | some xs =>
+    simp only [hm, Option.map_some] at h
+    split at h
+    · simp at h
+    · simp only [Except.ok.injEq, Prod.mk.injEq] at h
+      obtain ⟨rfl, rfl⟩ := h
+      exact ⟨rfl, rfl, mapM_length _ _ _ hm⟩
+
+theorem attr_strings_exact (q : Bool) (name : String) (items : List Atom) (sv : PyVal) (p : AProto)
+    (h : construct q .strings name (.seq items) = .ok (sv, p)) :
+    sv = .seq items ∧ items.mapM itemStr = some p.strings ∧ p.strings.length = items.length := by
+  simp only [construct, tupleOf, validated] at h
+  cases hm : items.mapM itemStr with
+  | none => simp [hm, validateCatchAll] at h
+  | some xs =>
+    simp only [hm, Option.map_some] at h
+    split at h
+    · simp at h
+    · simp only [Except.ok.injEq, Prod.mk.injEq] at h
+      obtain ⟨rfl, rfl⟩ := h
+      exact ⟨rfl, rfl, mapM_length _ _ _ hm⟩
+
+/-- A tensor attribute holds `from_array` of the array — hence, by `roundtrip`, the array. -/
+theorem attr_tensor_exact (q : Bool) (name : String) (a : Arr) (ha : a.WF) (sv : PyVal) (p : AProto)
+    (h : construct q .tensor name (.atom (.ndarray a)) = .ok (sv, p)) :
+    ∃ t, p.t = some t ∧ toArray q t = some (canon q a) ∧ typeOfProto t = some (a.dtype, a.shape) := by
+  obtain ⟨t, ht, hback⟩ := roundtrip q a "" ha
+  simp only [construct, scalarProto, ht, validated] at h
+  split at h
+  · simp at h
+  · simp only [Except.ok.injEq, Prod.mk.injEq] at h
+    obtain ⟨_, rfl⟩ := h
+    exact ⟨t, rfl, hback, const_type_exact q a "" t ht⟩
+
+/-! ## Part 3 — captured at the call -/
+open Capture
+
+/-- **Heap lemma.** If the way of storing is safe for the kind of argument, then after *any*
+    sequence of caller-side mutations spox reads what it read at the call. -/
+theorem captured (m : Mode) (a : Arg) (hs : safe m a.kind = true) (h : Heap) (ms : List Mut) :
+    observe (mutate h ms) (capture m h a) = observe h (capture m h a) := by
+  cases a <;> cases m <;> simp [safe, Arg.kind] at hs <;> rfl
+
+/-- Keeping the caller's object is *not* safe: one item assignment shows through. -/
+theorem alias_not_captured :
+    ∃ (h : Heap) (ms : List Mut), observe (mutate h ms) (capture .alias h (.flat 0)) ≠
+      observe h (capture .alias h (.flat 0)) :=
+  ⟨⟨fun _ => [1, 2, 3], fun _ => []⟩, [.setFlat 0 [99, 2, 3]], by decide⟩
+
+/-- Freezing a list of arrays into a tuple is not enough either: the arrays are still the caller's. -/
+theorem shallow_freeze_not_captured :
+    ∃ (h : Heap) (ms : List Mut), observe (mutate h ms) (capture .freeze h (.nest 0)) ≠
+      observe h (capture .freeze h (.nest 0)) :=
+  ⟨⟨fun _ => [1, 2], fun _ => [5]⟩, [.setFlat 5 [42, 2]], by decide⟩
+
+/-- Obligation on the table generated from the code on this run: every constructor that receives a
+    caller-owned object stores it in a way that is safe for that kind of object — both as read off
+    the source and as observed on the real objects. -/
+theorem generated_capture_ok : ∀ e ∈ Generated.CaptureTable.table, e.ok = true := by decide
+
+/-- The table has a row for every place of the statement. -/
+theorem generated_capture_complete :
+    ["AttrTensor", "AttrTensors", "AttrFloat32s", "AttrInt64s", "AttrStrings", "BaseVars.variadic",
+     "initializer", "arguments(default)", "constant(value)", "constant(value_ints)", "const",
+     "_future.initializer", "_AttrIterable.maybe"].all
+      (fun s => Generated.CaptureTable.table.any (·.site == s)) = true := by decide
+
+/-- **Captured at the call.** For every constructor of the generated table, every heap, every
+    argument of the row's kind and every sequence of caller-side mutations after the call, what spox
+    reads from the stored value — and therefore every function of it: the bytes of the model, the
+    propagated `_value` — is what it read at the call. -/
+theorem captured_at_call (e : Entry) (he : e ∈ Generated.CaptureTable.table) (a : Arg)
+    (hk : a.kind = e.kind) (h : Heap) (ms : List Mut) {β : Type} (read : List (List Nat) → β) :
+    read (observe (mutate h ms) (capture e.observed h a)) = read (observe h (capture e.observed h a)) := by
+  have hok := generated_capture_ok e he
+  simp only [Entry.ok, Bool.and_eq_true] at hok
+  rw [captured e.observed a (by rw [hk]; exact hok.1) h ms]
+
+/-- The same from the source text alone, for every row whose expression the extractor classifies. -/
+theorem captured_at_call_ast (e : Entry) (he : e ∈ Generated.CaptureTable.table) (hast : e.ast ≠ .opaque)
+    (a : Arg) (hk : a.kind = e.kind) (h : Heap) (ms : List Mut) :
+    observe (mutate h ms) (capture e.ast h a) = observe h (capture e.ast h a) := by
+  have hok := generated_capture_ok e he
+  simp only [Entry.ok, Bool.and_eq_true, Bool.or_eq_true, beq_iff_eq] at hok
+  rcases hok.2 with h2 | h2
+  · exact captured e.ast a (by rw [hk]; exact h2) h ms
+  · exact absurd h2 hast
+
+/-- Non-vacuity: a real mutation history against a copied array and a frozen list of Vars. -/
+example : observe (mutate ⟨fun _ => [1, 2, 3], fun _ => []⟩ [.setFlat 0 [9], .setFlat 0 []])
+    (capture .copy ⟨fun _ => [1, 2, 3], fun _ => []⟩ (.flat 0)) = [[1, 2, 3]] := by decide
 
 end C10
